@@ -48,6 +48,10 @@ def plan(tier, seed):
                             kinds = ['f']
                         for kd in kinds:
                             jobs.append(dict(var, kind='def', cmd=sp.name, shape=shape, pts=pts, reps=rp, kinds=kd, k=1))
+            if mtm and (tier != 'quick' or not var.get('bool', {}).get('IgnoreZeros')):
+                # 4 cells: the smallest column in which a cell can tie with the mean while another cell lies strictly
+                # between two control points (with 3 cells every cell coincides with a control point)
+                jobs.append(dict(var, kind='def', cmd=sp.name, shape=[4], pts=2, reps='n' if tier == 'quick' else 'm', kinds='f', k=1))
         if sp.name in MONOTONE:
             for var in D.default_variants(sp, 'quick'):
                 jobs.append(dict(var, kind='monotone', cmd=sp.name, shape=[2] if tier == 'quick' else [3], pts=2, reps='m', kinds='f', k=1))
